@@ -561,6 +561,10 @@ def case_key(d):
 # --------------------------------------------------------------------------------------------
 
 
+from common.py2lean_specs import with_translation  # noqa: E402
+
+
+@with_translation
 class C04(Property):
     id = "C04"
     title = "Automatic sizing always fits the frame, fills it, and preserves aspect ratio"
